@@ -61,6 +61,10 @@ type history struct {
 	// PreCancelled: the context is cancelled BEFORE the scanner is created; the
 	// history's own stop comes on top of that.
 	PreCancelled bool
+	// Headerless: the stream starts with a data block (a scan resumed at a
+	// reported offset); the reader goroutine then hands that first block over
+	// before its loop starts.
+	Headerless bool
 }
 
 func (h history) name() string {
@@ -80,6 +84,9 @@ func (h history) name() string {
 	if h.PreCancelled {
 		d += " context-cancelled-before-New"
 	}
+	if h.Headerless {
+		d += " headerless-stream"
+	}
 	return fmt.Sprintf("%s%s procs=%d scans=%d headerAt=%d stop=%s post=%s", h.Format, d, h.Procs, h.K, h.HeaderAt, stopNames[h.Stop], h.Post)
 }
 
@@ -88,8 +95,10 @@ const pbfBlocks = 6
 var (
 	pbfFile = pbfscen.File(pbfBlocks, true)
 	pbfEnc  = pbfFile.Encode()
-	pbfWant = pbfFile.Expected()
-	xmlDoc  = buildXML()
+	// the same data blocks without the header block: a stream resumed mid-file
+	pbfEncNoHeader = pbfscen.File(pbfBlocks, false).Encode()
+	pbfWant        = pbfFile.Expected()
+	xmlDoc         = buildXML()
 
 	// damaged inputs: two valid data blocks, then a block whose blob is not a
 	// protobuf message, then one more valid block / three nodes, then a
@@ -190,6 +199,9 @@ func scenario(h history, bound int) vexplore.Scenario {
 				var ps *osmpbf.Scanner
 				if h.Format == "pbf" {
 					rd = &pbfscen.Reader{Data: pbfEnc.Data, BlockOnly: true}
+					if h.Headerless {
+						rd.Data = pbfEncNoHeader.Data
+					}
 					if h.Damaged {
 						rd.Data = pbfDamaged
 					}
@@ -304,6 +316,9 @@ func scenario(h history, bound int) vexplore.Scenario {
 				unreadAtStop := 0
 				if blocksAtStop >= 0 {
 					unreadAtStop = pbfBlocks + 1 - blocksAtStop // +1: the header block
+					if h.Headerless {
+						unreadAtStop--
+					}
 				}
 				nonvac := stopIssued && !complete && (h.Format == "xml" || unreadAtStop >= 4 || h.K == 0)
 				tag := fmt.Sprintf("%d objs, %d blocks at stop, %d at end, err=%v", len(got), blocksAtStop, rdBlocks(rd), errAtEnd)
@@ -538,6 +553,22 @@ func main() {
 		// when everything else is parked on the stalled read)
 		for _, p := range []int{1, 2} {
 			scs = append(scs, scenario(history{Format: "pbf", Procs: p, K: 0, HeaderAt: -1, Stop: stopCancelOther, Post: "SE", Stalled: true}, 1))
+		}
+		// family L: header-less streams (a resumed scan), decoder counts on both sides of
+		// the step to unbuffered channels (10/n = 0 from n = 11), stopped before and
+		// after the pipeline has started
+		for _, p := range []int{1, 2, 11, 12} {
+			for stop := 0; stop < 5; stop++ {
+				for _, k := range []int{0, 1, 3} {
+					if stop == stopCancelOther && k > 0 {
+						continue
+					}
+					scs = append(scs, scenario(history{Format: "pbf", Procs: p, K: k, HeaderAt: -1, Stop: stop, Post: "SECSEH", Headerless: true}, 1))
+				}
+			}
+			for _, stop := range []int{stopCancel, stopClose} {
+				scs = append(scs, scenario(history{Format: "pbf", Procs: p, K: 0, HeaderAt: -1, Stop: stop, Post: "HSEC", PreCancelled: true, Headerless: true}, 1))
+			}
 		}
 		// family R: the context is already cancelled when the scanner is created
 		for _, stop := range []int{stopCancel, stopClose} {
